@@ -89,7 +89,7 @@ def check(ctx):
         return selftest(ctx)
     quick = ctx.tier == "quick"
     allc = [1, 2, 3, 4, 5, 8, 9]
-    B = ["plain", "sub", "stop", "dup", "again"]   # SubOpts: the script works in $WORK / after `cd sub` with every entry under sub/ / ends with a `stop` line
+    B = ["plain", "sub", "stop", "dup", "again", "setupcd"]   # SubOpts: the script works in $WORK / after `cd sub` with every entry under sub/ / ends with a `stop` line
     # (MaxSlots, KindMode, Cs, ArchG, ByOpts, driver stride, walks per worker, SubOpts); bounds fitted to measured counts, see REGISTRY.
     # walks = 0: TLC explores every state; walks > 0: seeded random walks (-simulate, SIM_WORKERS workers) through a slot
     # domain with three goldens that is too large to enumerate; TLC checks and emits EVERY successor of every state on a
